@@ -1,6 +1,14 @@
 /-!
-Model of parser/lexer.go (pinned commit, unrepaired).  Input and token values are byte
-lists (`Nat` < 256); runes are code points.  Follows the Go code function by function.
+Model of parser/lexer.go as it is in /repo now (after `fix:` 02ff58e: the closing quote of a
+string is found with an `escaped` flag, not by looking at the previous rune).  Input and token
+values are byte lists (`Nat` < 256); runes are code points.  Follows the Go code function by
+function.
+
+Position bookkeeping (property C18) is confined to three small functions which every lexing
+function below calls and which `Ecal.Props.C18` is about:
+`L.track` (the `if r == '\n' { line++; lastnl = l.pos }` of skipWhiteSpace / lexValue / the block
+comment), `L.hashEnd` (the bare `l.line++` after a `#` comment) and `L.stamp` (the line / column
+written into a token by emitToken / emitTokenAndValue / emitError).
 -/
 namespace Ecal.Lex
 
@@ -8,27 +16,20 @@ abbrev Bytes := Array Nat
 
 def runeError : Nat := 0xFFFD
 
-/-- utf8.DecodeRuneInString at byte offset `i` (i < size): (rune, width); invalid ⇒ (U+FFFD, 1) -/
-def decodeRune (b : Bytes) (i : Nat) : Nat × Nat :=
-  let n := b.size - i
-  let c0 := b.getD i 0
+/-- utf8.DecodeRuneInString on the next (up to four) bytes `c0 c1 c2 c3` of which `n ≥ 1` exist:
+    (rune, width); invalid ⇒ (U+FFFD, 1) -/
+def decodeBytes (n c0 c1 c2 c3 : Nat) : Nat × Nat :=
   let cont (c : Nat) : Bool := 0x80 ≤ c && c ≤ 0xBF
   if c0 < 0x80 then (c0, 1)
   else if c0 < 0xC2 then (runeError, 1)
   else if c0 < 0xE0 then
-    let c1 := b.getD (i+1) 0
     if n ≥ 2 && cont c1 then ((c0 % 32) * 64 + (c1 % 64), 2) else (runeError, 1)
   else if c0 < 0xF0 then
-    let c1 := b.getD (i+1) 0
-    let c2 := b.getD (i+2) 0
     let lo := if c0 = 0xE0 then 0xA0 else 0x80
     let hi := if c0 = 0xED then 0x9F else 0xBF
     if n ≥ 3 && lo ≤ c1 && c1 ≤ hi && cont c2 then ((c0 % 16) * 4096 + (c1 % 64) * 64 + (c2 % 64), 3)
     else (runeError, 1)
   else if c0 < 0xF5 then
-    let c1 := b.getD (i+1) 0
-    let c2 := b.getD (i+2) 0
-    let c3 := b.getD (i+3) 0
     let lo := if c0 = 0xF0 then 0x90 else 0x80
     let hi := if c0 = 0xF4 then 0x8F else 0xBF
     if n ≥ 4 && lo ≤ c1 && c1 ≤ hi && cont c2 && cont c3 then
@@ -36,15 +37,46 @@ def decodeRune (b : Bytes) (i : Nat) : Nat × Nat :=
     else (runeError, 1)
   else (runeError, 1)
 
+/-- utf8.DecodeRuneInString at byte offset `i` (i < size): (rune, width); invalid ⇒ (U+FFFD, 1) -/
+def decodeRune (b : Bytes) (i : Nat) : Nat × Nat :=
+  decodeBytes (b.size - i) (b.getD i 0) (b.getD (i+1) 0) (b.getD (i+2) 0) (b.getD (i+3) 0)
+
 /-- unicode.IsSpace (complete) -/
 def isSpace (r : Nat) : Bool :=
   r = 9 || r = 10 || r = 11 || r = 12 || r = 13 || r = 32 || r = 0x85 || r = 0xA0 ||
   r = 0x1680 || (0x2000 ≤ r && r ≤ 0x200A) || r = 0x2028 || r = 0x2029 || r = 0x202F || r = 0x205F || r = 0x3000
 /-- unicode.IsControl (complete) -/
 def isControl (r : Nat) : Bool := r ≤ 0x1F || (0x7F ≤ r && r ≤ 0x9F)
-/-- unicode.IsNumber: exact on ASCII and Latin-1 only (declared limitation) -/
+/-- Go's `unicode.N` range table (go1.23.5, Unicode 15.0.0): (lo, hi, stride) -/
+def numberRanges : List (Nat × Nat × Nat) :=
+  [(48, 57, 1), (178, 179, 1), (185, 188, 3), (189, 190, 1), (1632, 1641, 1), (1776, 1785, 1), (1984, 1993, 1),
+   (2406, 2415, 1), (2534, 2543, 1), (2548, 2553, 1), (2662, 2671, 1), (2790, 2799, 1), (2918, 2927, 1), (2930,
+   2935, 1), (3046, 3058, 1), (3174, 3183, 1), (3192, 3198, 1), (3302, 3311, 1), (3416, 3422, 1), (3430, 3448,
+   1), (3558, 3567, 1), (3664, 3673, 1), (3792, 3801, 1), (3872, 3891, 1), (4160, 4169, 1), (4240, 4249, 1),
+   (4969, 4988, 1), (5870, 5872, 1), (6112, 6121, 1), (6128, 6137, 1), (6160, 6169, 1), (6470, 6479, 1), (6608,
+   6618, 1), (6784, 6793, 1), (6800, 6809, 1), (6992, 7001, 1), (7088, 7097, 1), (7232, 7241, 1), (7248, 7257,
+   1), (8304, 8308, 4), (8309, 8313, 1), (8320, 8329, 1), (8528, 8578, 1), (8581, 8585, 1), (9312, 9371, 1),
+   (9450, 9471, 1), (10102, 10131, 1), (11517, 12295, 778), (12321, 12329, 1), (12344, 12346, 1), (12690, 12693,
+   1), (12832, 12841, 1), (12872, 12879, 1), (12881, 12895, 1), (12928, 12937, 1), (12977, 12991, 1), (42528,
+   42537, 1), (42726, 42735, 1), (43056, 43061, 1), (43216, 43225, 1), (43264, 43273, 1), (43472, 43481, 1),
+   (43504, 43513, 1), (43600, 43609, 1), (44016, 44025, 1), (65296, 65305, 1), (65799, 65843, 1), (65856, 65912,
+   1), (65930, 65931, 1), (66273, 66299, 1), (66336, 66339, 1), (66369, 66378, 9), (66513, 66517, 1), (66720,
+   66729, 1), (67672, 67679, 1), (67705, 67711, 1), (67751, 67759, 1), (67835, 67839, 1), (67862, 67867, 1),
+   (68028, 68029, 1), (68032, 68047, 1), (68050, 68095, 1), (68160, 68168, 1), (68221, 68222, 1), (68253, 68255,
+   1), (68331, 68335, 1), (68440, 68447, 1), (68472, 68479, 1), (68521, 68527, 1), (68858, 68863, 1), (68912,
+   68921, 1), (69216, 69246, 1), (69405, 69414, 1), (69457, 69460, 1), (69573, 69579, 1), (69714, 69743, 1),
+   (69872, 69881, 1), (69942, 69951, 1), (70096, 70105, 1), (70113, 70132, 1), (70384, 70393, 1), (70736, 70745,
+   1), (70864, 70873, 1), (71248, 71257, 1), (71360, 71369, 1), (71472, 71483, 1), (71904, 71922, 1), (72016,
+   72025, 1), (72784, 72812, 1), (73040, 73049, 1), (73120, 73129, 1), (73552, 73561, 1), (73664, 73684, 1),
+   (74752, 74862, 1), (92768, 92777, 1), (92864, 92873, 1), (93008, 93017, 1), (93019, 93025, 1), (93824, 93846,
+   1), (119488, 119507, 1), (119520, 119539, 1), (119648, 119672, 1), (120782, 120831, 1), (123200, 123209, 1),
+   (123632, 123641, 1), (124144, 124153, 1), (125127, 125135, 1), (125264, 125273, 1), (126065, 126123, 1),
+   (126125, 126127, 1), (126129, 126132, 1), (126209, 126253, 1), (126255, 126269, 1), (127232, 127244, 1),
+   (130032, 130041, 1)]
+/-- unicode.IsNumber: membership in `unicode.N` -/
 def isNumber (r : Nat) : Bool :=
-  (0x30 ≤ r && r ≤ 0x39) || r = 0xB2 || r = 0xB3 || r = 0xB9 || r = 0xBC || r = 0xBD || r = 0xBE
+  if r < 0x80 then 0x30 ≤ r && r ≤ 0x39
+  else numberRanges.any fun (lo, hi, st) => lo ≤ r && r ≤ hi && (r - lo) % st = 0
 
 structure Tok where
   id : Nat
@@ -79,8 +111,17 @@ def keywordTable : List (String × Nat) :=
    ("elif",64),("else",65),("for",66),("break",67),("continue",68),("try",69),("except",70),
    ("otherwise",71),("finally",72),("mutex",73)]
 
-def lookupTab (tab : List (String × Nat)) (k : List Nat) : Option Nat :=
-  (tab.find? fun p => str p.1 == k).map (·.2)
+/-- the same tables keyed by the UTF-8 bytes of the text (so that look-ups reduce inside the
+    kernel: `String.toUTF8` does not); checked against the readable tables at build time -/
+def symbolBytes : List (List Nat × Nat) :=
+  [([62, 61], 16), ([60, 61], 17), ([33, 61], 18), ([61, 61], 19), ([62], 20), ([60], 21), ([40], 22), ([41], 23), ([91], 24), ([93], 25), ([123], 26), ([125], 27), ([46], 28), ([44], 29), ([59], 30), ([58], 31), ([61], 32), ([43], 33), ([45], 34), ([42], 35), ([47], 36), ([47, 47], 37), ([37], 38), ([58, 61], 39)]
+def keywordBytes : List (List Nat × Nat) :=
+  [([108, 101, 116], 40), ([105, 109, 112, 111, 114, 116], 42), ([97, 115], 43), ([115, 105, 110, 107], 44), ([107, 105, 110, 100, 109, 97, 116, 99, 104], 45), ([115, 99, 111, 112, 101, 109, 97, 116, 99, 104], 46), ([115, 116, 97, 116, 101, 109, 97, 116, 99, 104], 47), ([112, 114, 105, 111, 114, 105, 116, 121], 48), ([115, 117, 112, 112, 114, 101, 115, 115, 101, 115], 49), ([102, 117, 110, 99], 50), ([114, 101, 116, 117, 114, 110], 51), ([97, 110, 100], 52), ([111, 114], 53), ([110, 111, 116], 54), ([108, 105, 107, 101], 55), ([105, 110], 56), ([104, 97, 115, 112, 114, 101, 102, 105, 120], 57), ([104, 97, 115, 115, 117, 102, 102, 105, 120], 58), ([110, 111, 116, 105, 110], 59), ([102, 97, 108, 115, 101], 60), ([116, 114, 117, 101], 61), ([110, 117, 108, 108], 62), ([105, 102], 63), ([101, 108, 105, 102], 64), ([101, 108, 115, 101], 65), ([102, 111, 114], 66), ([98, 114, 101, 97, 107], 67), ([99, 111, 110, 116, 105, 110, 117, 101], 68), ([116, 114, 121], 69), ([101, 120, 99, 101, 112, 116], 70), ([111, 116, 104, 101, 114, 119, 105, 115, 101], 71), ([102, 105, 110, 97, 108, 108, 121], 72), ([109, 117, 116, 101, 120], 73)]
+#guard symbolTable.map (fun p => (str p.1, p.2)) == symbolBytes
+#guard keywordTable.map (fun p => (str p.1, p.2)) == keywordBytes
+
+def lookupTab (tab : List (List Nat × Nat)) (k : List Nat) : Option Nat :=
+  (tab.find? fun p => p.1 == k).map (·.2)
 
 def lowerByte (c : Nat) : Nat := if 65 ≤ c && c ≤ 90 then c + 32 else c
 def lowerAscii (l : List Nat) : List Nat := l.map lowerByte
@@ -115,8 +156,26 @@ def L.peek (l : L) (n : Nat) : Option Nat :=
 
 def L.backup (l : L) (w : Nat) : L := { l with pos := l.pos - (if w = 0 then l.width else w) }
 
+/-- the bookkeeping step after rune `r` has been read (so `l.pos` is the offset after it):
+    `if r == '\n' { line++; lastnl = l.pos }` — skipWhiteSpace, lexValue, block comment.
+    (lexValue and the block comment keep the pair in locals `lLine/lLastnl` until the token is
+    emitted; `trackPair` is the same step on such a pair.) -/
+def trackPair (r : Option Nat) (posAfter : Nat) (p : Nat × Nat) : Nat × Nat :=
+  if r = some 10 then (p.1 + 1, posAfter) else p
+
+def L.track (l : L) (r : Option Nat) : L :=
+  let p := trackPair r l.pos (l.line, l.lastnl)
+  { l with line := p.1, lastnl := p.2 }
+
+/-- what the `#` branch of lexComment does after the terminating newline: `l.line++` only -/
+def L.hashEnd (l : L) : L := { l with line := l.line + 1 }
+
+/-- line and column written into a token that starts at `l.start`:
+    `l.line + 1, l.start - l.lastnl + 1` -/
+def L.stamp (l : L) : Nat × Int := (l.line + 1, (l.start : Int) - (l.lastnl : Int) + 1)
+
 def L.emit (l : L) (id : Nat) (val : List Nat) (ident ae : Bool) : L :=
-  let t : Tok := Tok.mk id l.start val ident ae l.skippedNl (l.line + 1) ((l.start : Int) - (l.lastnl : Int) + 1)
+  let t : Tok := Tok.mk id l.start val ident ae l.skippedNl l.stamp.1 l.stamp.2
   { l with toks := l.toks.push t }
 
 def L.emitToken (l : L) (id : Nat) : L :=
@@ -136,7 +195,7 @@ def skipWhiteSpace (l : L) : L × Bool :=
     | 0 => (l, false)
     | fuel+1 =>
       if blank r then
-        let l := if r = some 10 then { l with line := l.line + 1, skippedNl := l.skippedNl + 1, lastnl := l.pos } else l
+        let l := if r = some 10 then { l.track r with skippedNl := l.skippedNl + 1 } else l
         let (l, r) := l.next
         if r = none then (l.emitToken tEOF, false) else loop fuel l r
       else (l.backup 0, true)
@@ -169,7 +228,7 @@ def lexNumberBlock (l : L) : L :=
   let (l, r) := loop (l.inp.size + 2) l r
   if r != none then l.backup 0 else l
 
-def isSym (k : List Nat) : Bool := (lookupTab symbolTable k).isSome
+def isSym (k : List Nat) : Bool := (lookupTab symbolBytes k).isSome
 
 def lexTextBlock (l : L) : L :=
   let (l, r) := l.next
@@ -190,20 +249,35 @@ def lexTextBlock (l : L) : L :=
     let (l, r, early) := loop (l.inp.size + 2) l r
     if early then l else if r != none then l.backup 0 else l
 
+def digitsVal (ds : List Nat) : Nat := ds.foldl (fun acc d => acc * 10 + (d - 48)) 0
+
+/-- smallest value that strconv.ParseFloat(…, 64) rounds to +Inf (ErrRange): 2^1024 − 2^970 -/
+def floatOverflow : Nat := 2 ^ 1024 - 2 ^ 970
+
+/-- `m · 10^e / 10^f` overflows float64 (exact comparison; a huge exponent is cut off first) -/
+def overflows (m e f : Nat) : Bool :=
+  if m = 0 then false
+  else if e > f + 400 then true
+  else if e ≥ f then m * 10 ^ (e - f) ≥ floatOverflow
+  else m ≥ floatOverflow * 10 ^ (f - e)
+
 /-- candidate accepted by strconv.ParseFloat among strings over [0-9 . e +] starting with a digit:
-    digits [ '.' digits* ] [ 'e' '+' digits+ ]   (range errors for huge exponents are outside the model) -/
+    digits [ '.' digits* ] [ 'e' '+' digits+ ], and the value does not overflow float64 -/
 def validFloat (s : List Nat) : Bool :=
   let isD (c : Nat) : Bool := 48 ≤ c && c ≤ 57
   let intPart := s.takeWhile isD
   let rest := s.dropWhile isD
   if intPart.isEmpty then false
   else
-    let rest := match rest with
-      | 46 :: r => r.dropWhile isD
-      | r => r
+    let (frac, rest) := match rest with
+      | 46 :: r => (r.takeWhile isD, r.dropWhile isD)
+      | r => ([], r)
+    let m := digitsVal (intPart ++ frac)
     match rest with
-    | [] => true
-    | 101 :: 43 :: e => !e.isEmpty && e.all isD
+    | [] => !overflows m 0 frac.length
+    | 101 :: 43 :: e =>
+      !e.isEmpty && e.all isD &&
+        !(if (e.dropWhile (· = 48)).length > 6 then m != 0 else overflows m (digitsVal e) frac.length)
     | _ => false
 
 def hexv (c : Nat) : Option Nat :=
@@ -285,17 +359,19 @@ def lexValue (l : L) : L × Next :=
   let (l, ae, endTok) :=
     if r = some 114 && (q = some 34 || q = some 39) then ((l.next).1, false, q) else (l, true, r)
   let (l, r) := l.next
-  let rec loop (fuel : Nat) (l : L) (r rprev : Option Nat) (lLine lLastnl : Nat) : Option (L × Nat × Nat) :=
+  let rec loop (fuel : Nat) (l : L) (r : Option Nat) (escaped : Bool) (lLine lLastnl : Nat) : Option (L × Nat × Nat) :=
     match fuel with
     | 0 => none
     | fuel+1 =>
-      if (!ae && r != endTok) || (ae && (r != endTok || rprev = some 92)) then
-        let (lLine, lLastnl) := if r = some 10 then (lLine + 1, l.pos) else (lLine, lLastnl)
+      if (!ae && r != endTok) || (ae && (r != endTok || escaped)) then
+        let (lLine, lLastnl) := trackPair r l.pos (lLine, lLastnl)
+        -- a backslash escapes the next character unless it is escaped itself
+        let escaped := !escaped && r = some 92
         let (l', r') := l.next
         if r' = none then none   -- error: unexpected end (position info taken from l below)
-        else loop fuel l' r' r lLine lLastnl
+        else loop fuel l' r' escaped lLine lLastnl
       else some (l, lLine, lLastnl)
-  match loop (l.inp.size + 2) l r (some 32) l.line l.lastnl with
+  match loop (l.inp.size + 2) l r false l.line l.lastnl with
   | none =>
     -- the Go code has consumed up to EOF; only the emitted error matters
     ({ l with pos := l.inp.size }.emitError "Unexpected end while reading string value (unclosed quotes)", Next.stop)
@@ -319,7 +395,7 @@ def lexComment (l : L) : L × Next :=
       | fuel+1 => if r != some 10 && r != none then let (l, r) := l.next; loop fuel l r else (l, r)
     let (l, r) := loop (l.inp.size + 2) l r
     let l := l.emit tPOSTCOMMENT (l.slice l.start l.pos) false false
-    if r = none then (l, Next.stop) else ({ l with line := l.line + 1 }, Next.token)
+    if r = none then (l, Next.stop) else (l.hashEnd, Next.token)
   else
     let (l, _) := l.next
     let lLine := l.line
@@ -331,7 +407,7 @@ def lexComment (l : L) : L × Next :=
       | 0 => none
       | fuel+1 =>
         if r != some 42 || l.peek 1 != some 47 then
-          let (lLine, lLastnl) := if r = some 10 then (lLine + 1, l.pos) else (lLine, lLastnl)
+          let (lLine, lLastnl) := trackPair r l.pos (lLine, lLastnl)
           let (l', r') := l.next
           if r' = none then none else loop2 fuel l' r' lLine lLastnl
         else some (l, lLine, lLastnl)
@@ -367,7 +443,7 @@ def lexToken (l : L) : L × Next :=
       let l := lexTextBlock l
       let ic := l.slice l.start l.pos
       let kc := lowerAscii ic
-      match (lookupTab keywordTable kc).orElse (fun _ => lookupTab symbolTable kc) with
+      match (lookupTab keywordBytes kc).orElse (fun _ => lookupTab symbolBytes kc) with
       | some t => (l.emitToken t, Next.token)
       | none =>
         if !namePattern kc then (l.emitError "Cannot parse identifier", Next.stop)
